@@ -319,6 +319,21 @@ exec_c12(const vcase *vc)
 			if (rp_accept(&tmp, W.lfd, RP_IPC) != 0)
 				continue;
 			W.redials++;
+			if (k & 4) {
+				// a peer of another protocol answers at the address: the handshake completes, the REQ socket turns the
+				// connection away itself - and must keep dialing, the replier may come up later
+				uint16_t pp = 0;
+				int      hr = rp_handshake(&tmp, (k & 1) ? SP_PAIR0 : SP_PUB, &pp);
+				vs_settle();
+				rp_pump(&tmp);
+				VR_CHECK(hr != 0 || tmp.eof, "C12:wrong-protocol-peer-kept", "a peer announcing protocol %s completed the handshake and the REQ socket kept the connection",
+				    (k & 1) ? "PAIR0" : "PUB");
+				rp_close(&tmp);
+				vs_settle();
+				W.redial_due = vs_now() + (uint64_t) W.rmax + 15;
+				vr_tag("wrong_protocol_peer_at_address");
+				continue;
+			}
 			if (k & 1) {
 				vs_settle();
 				rp_pump(&tmp); // read nng's header first
@@ -528,7 +543,7 @@ genOp()
 		case 6: o << "cancel " << k; break;
 		case 7: o << "ctxopen " << *pbt::range<int>(1, 2); break;
 		case 8: o << "ctime " << k << " " << *gen::element(20, 50, 200, 1000, 60000, -1); break;
-		case 9: o << "dropnego " << *pbt::range<int>(0, 3); break;
+		case 9: o << "dropnego " << *pbt::range<int>(0, 7); break;
 		}
 		return o.str();
 	});
